@@ -23,7 +23,7 @@ VERIF_ERR = ("postcondition not satisfied", "precondition not satisfied", "invar
              "index out of bounds", "decreases not satisfied", "failed this", "loop invariant",
              "possible bit shift underflow/overflow", "recommendation not met",
              "unreachable", "might not be allowed", "could not prove termination",
-             "assertion not satisfied", "not satisfied", "unable to prove")
+             "assertion not satisfied", "not satisfied", "unable to prove", "precondition not met")
 
 
 def run_verus(path, rlimit=None, timeout=600):
